@@ -1152,4 +1152,377 @@ theorem reread_of_class (x : Str) (h : InRereadClass x) : reread (toCps x) ≠ t
     have h2 := length_utf8_gt s c hc hge
     rw [h1] at h2
     simp [asBytes] at h2
+
+/-! ### bare (unquoted) words -/
+
+/-- a word the lexer reads as one plain token: not empty, no separator (hence no blank, bracket, quote, pipe, NUL) -/
+def WordOk (cfg : LexCfg) (w : Str) : Prop := w ≠ [] ∧ ∀ c ∈ w, c ∉ cfg.separators ∧ c ∉ cfg.whitespace
+
+theorem readLoop_word (cfg : LexCfg) (ha : 'a' ∉ cfg.quotes) (w rest : Str)
+    (hw : ∀ c ∈ w, c ∉ cfg.separators ∧ c ∉ cfg.whitespace) (token : Str) (bs : Bool) (pb : List Str) :
+    readLoop cfg (w ++ rest) (some 'a') token bs pb = readLoop cfg rest (some 'a') (token ++ w) bs pb := by
+  induction w generalizing token with
+  | nil => simp
+  | cons c w ih =>
+    have hc := hw c (by simp)
+    rw [List.cons_append, readLoop]
+    simp only [show ('a' : Char) ≠ ' ' by decide, ha, hc.1, hc.2, if_false, if_true, not_false_eq_true, true_or]
+    rw [ih (fun d hd => hw d (by simp [hd]))]
+    simp
+
+/-- the three ways a word ends -/
+theorem getToken_word_eof {cfg : LexCfg} (ha : 'a' ∉ cfg.quotes) (w : Str) (hw : WordOk cfg w) :
+    getToken cfg (bnd w) = .tok w ⟨[], none, false, []⟩ := by
+  obtain ⟨hne, hw⟩ := hw
+  cases w with
+  | nil => exact absurd rfl hne
+  | cons c w =>
+    have hc := hw c (by simp)
+    have := readLoop_word cfg ha w [] (fun d hd => hw d (by simp [hd])) [c] false []
+    simp only [List.append_nil] at this
+    simp only [getToken, bnd, readLoop, hc.1, hc.2, if_false, if_true, not_false_eq_true]
+    rw [this]
+    simp [readLoop, show ('a' : Char) ≠ ' ' by decide, ha]
+
+theorem getToken_word_space {cfg : LexCfg} (ha : 'a' ∉ cfg.quotes) (hsp : ' ' ∈ cfg.whitespace) (w rest : Str)
+    (hw : WordOk cfg w) : getToken cfg (bnd (w ++ ' ' :: rest)) = .tok w (bnd rest) := by
+  obtain ⟨hne, hw⟩ := hw
+  cases w with
+  | nil => exact absurd rfl hne
+  | cons c w =>
+    have hc := hw c (by simp)
+    have := readLoop_word cfg ha w (' ' :: rest) (fun d hd => hw d (by simp [hd])) [c] false []
+    simp only [getToken, bnd, List.cons_append, readLoop, hc.1, hc.2, if_false, if_true, not_false_eq_true]
+    rw [this]
+    simp [readLoop, show ('a' : Char) ≠ ' ' by decide, ha, hsp]
+
+theorem getToken_word_punct {cfg : LexCfg} (ha : 'a' ∉ cfg.quotes) (b : Char) (hbw : b ∉ cfg.whitespace)
+    (hbs : b ∈ cfg.separators) (hbq : b ∉ cfg.quotes) (w rest : Str) (hw : WordOk cfg w) :
+    getToken cfg (bnd (w ++ b :: rest)) = .tok w ⟨rest, some ' ', false, [[b]]⟩ := by
+  obtain ⟨hne, hw⟩ := hw
+  cases w with
+  | nil => exact absurd rfl hne
+  | cons c w =>
+    have hc := hw c (by simp)
+    have := readLoop_word cfg ha w (b :: rest) (fun d hd => hw d (by simp [hd])) [c] false []
+    simp only [getToken, bnd, List.cons_append, readLoop, hc.1, hc.2, if_false, if_true, not_false_eq_true]
+    rw [this]
+    simp [readLoop, show ('a' : Char) ≠ ' ' by decide, ha, hbw, hbs, hbq]
+
+theorem getToken_pushback (cfg : LexCfg) (t : Str) (inp : Str) :
+    getToken cfg ⟨inp, some ' ', false, [t]⟩ = .tok t (bnd inp) := by
+  simp [getToken, bnd]
+
+theorem getToken_none (cfg : LexCfg) : getToken cfg ⟨[], none, false, []⟩ = .tok [] ⟨[], none, false, []⟩ := by
+  simp [getToken, readLoop]
+
+theorem handleToken_word {cfg : LexCfg} (quotes : Str) (hq : ∀ c ∈ quotes, c ∈ cfg.separators) (w : Str)
+    (hw : WordOk cfg w) : handleToken quotes w = .ok (toCps w) := by
+  obtain ⟨hne, hw⟩ := hw
+  cases w with
+  | nil => exact absurd rfl hne
+  | cons c w =>
+    have hc : c ∉ quotes := fun h => (hw c (by simp)).1 (hq c h)
+    simp [handleToken, hc, List.getLast?_eq_some_getLast]
+
+/-- source trees whose leaves are bare words or quoted text -/
+inductive WTree where
+  | word (w : Str)
+  | leaf (x : Str)
+  | node (ts : List WTree)
+
+mutual
+def WTree.toTree : WTree → Tree
+  | .word w => .leaf (toCps w)
+  | .leaf x => .leaf (toCps x)
+  | .node ts => .node (toTreesW ts)
+def toTreesW : List WTree → List Tree
+  | [] => []
+  | t :: ts => t.toTree :: toTreesW ts
+end
+
+mutual
+/-- a word is written as it is, other text in double quotes, a sub-command between the brackets -/
+def renderW (l r : Char) : WTree → Str
+  | .word w => w
+  | .leaf x => quote x
+  | .node ts => l :: renderListW l r ts ++ [r]
+/-- items separated by one blank -/
+def renderListW (l r : Char) : List WTree → Str
+  | [] => []
+  | t :: ts => renderW l r t ++ renderSpW l r ts
+def renderSpW (l r : Char) : List WTree → Str
+  | [] => []
+  | t :: ts => ' ' :: renderW l r t ++ renderSpW l r ts
+end
+
+mutual
+def WTree.size : WTree → Nat
+  | .word _ => 1
+  | .leaf _ => 1
+  | .node ts => 2 + sizeLW ts
+def sizeLW : List WTree → Nat
+  | [] => 0
+  | t :: ts => t.size + sizeLW ts
+end
+
+mutual
+/-- every bare word of the tree is one the lexer reads as a plain token -/
+def WTree.WordsOk (cfg : LexCfg) : WTree → Prop
+  | .word w => WordOk cfg w
+  | .leaf _ => True
+  | .node ts => WordsOkL cfg ts
+def WordsOkL (cfg : LexCfg) : List WTree → Prop
+  | [] => True
+  | t :: ts => t.WordsOk cfg ∧ WordsOkL cfg ts
+end
+
+theorem renderSpW_eq (l r : Char) (ts : List WTree) :
+    renderSpW l r ts = match ts with | [] => [] | _ :: _ => ' ' :: renderListW l r ts := by
+  cases ts with
+  | nil => simp [renderSpW]
+  | cons t ts => simp [renderSpW, renderListW]
+
+structure WdTok (T : TokCfg) (l r : Char) : Prop extends BrTok T l r where
+  a_q : 'a' ∉ T.lexCfg.quotes
+  q_sep : ∀ c ∈ T.quotes, c ∈ T.lexCfg.separators
+  pipe_sep : T.pipe = true → '|' ∈ T.lexCfg.separators
+
+theorem word_ne_sep {cfg : LexCfg} {w : Str} (hw : WordOk cfg w) (b : Char) (hb : b ∈ cfg.separators) : w ≠ [b] := by
+  intro e; subst e
+  exact (hw.2 b (by simp)).1 hb
+
+theorem inside_space {T : TokCfg} (hl : DqCfg T.lexCfg) (n : Nat) (X : Str) :
+    insideBrackets T n (bnd (' ' :: X)) = insideBrackets T n (bnd X) := by
+  cases n with
+  | zero => rfl
+  | succ n => rw [insideBrackets, getToken_space hl, ← insideBrackets]
+
+theorem topLoop_space {T : TokCfg} (hl : DqCfg T.lexCfg) (n : Nat) (X : Str) (args : List Tree) (ends : List (List Tree)) :
+    topLoop T n (bnd (' ' :: X)) args ends = topLoop T n (bnd X) args ends := by
+  cases n with
+  | zero => rfl
+  | succ n => rw [topLoop, getToken_space hl, ← topLoop]
+
+theorem inside_step_word_sp {T : TokCfg} {l r : Char} (hT : WdTok T l r) (w : Str) (hw : WordOk T.lexCfg w)
+    (n : Nat) (rest : Str) :
+    insideBrackets T (n + 1) (bnd (w ++ ' ' :: rest)) =
+      (insideBrackets T n (bnd rest)).bind fun (items, lx) => .ok (.leaf (toCps w) :: items, lx) := by
+  rw [insideBrackets, getToken_word_space hT.a_q hT.lex.sp_ws w rest hw]
+  have h0 : w ≠ [] := hw.1
+  have h2 : w ≠ T.left := by rw [hT.hl]; exact word_ne_sep hw l hT.l_sep
+  have h3 : w ≠ T.right := by rw [hT.hr]; exact word_ne_sep hw r hT.r_sep
+  simp only [h0, h2, h3, if_false, handleToken_word T.quotes hT.q_sep w hw, PR.bind]
+
+theorem inside_step_word_close {T : TokCfg} {l r : Char} (hT : WdTok T l r) (w : Str) (hw : WordOk T.lexCfg w)
+    (n : Nat) (rest : Str) :
+    insideBrackets T (n + 2) (bnd (w ++ r :: rest)) = .ok ([.leaf (toCps w)], bnd rest) := by
+  rw [insideBrackets, getToken_word_punct hT.a_q r hT.r_ws hT.r_sep hT.r_q w rest hw]
+  have h0 : w ≠ [] := hw.1
+  have h2 : w ≠ T.left := by rw [hT.hl]; exact word_ne_sep hw l hT.l_sep
+  have h3 : w ≠ T.right := by rw [hT.hr]; exact word_ne_sep hw r hT.r_sep
+  simp only [h0, h2, h3, if_false, handleToken_word T.quotes hT.q_sep w hw, PR.bind]
+  rw [insideBrackets, getToken_pushback]
+  simp [hT.hr]
+
+theorem inside_sp_eq_list {T : TokCfg} (hl : DqCfg T.lexCfg) (l r : Char) (ts : List WTree) (n : Nat) (X : Str) :
+    insideBrackets T n (bnd (renderSpW l r ts ++ X)) = insideBrackets T n (bnd (renderListW l r ts ++ X)) := by
+  rw [renderSpW_eq]
+  cases ts with
+  | nil => simp [renderListW]
+  | cons t ts => simp only [List.cons_append]; exact inside_space hl n _
+
+theorem inside_listW {T : TokCfg} {l r : Char} (hT : WdTok T l r) : (ts : List WTree) → ∀ (n : Nat) (rest : Str),
+    WordsOkL T.lexCfg ts → sizeLW ts + 1 ≤ n →
+    insideBrackets T n (bnd (renderListW l r ts ++ r :: rest)) = .ok (toTreesW ts, bnd rest)
+  | [], n, rest, _, hn => by
+    obtain ⟨m, rfl⟩ : ∃ m, n = m + 1 := ⟨n - 1, by omega⟩
+    simp only [renderListW, List.nil_append, insideBrackets, getToken_punct r hT.r_ws hT.r_sep hT.r_q, hT.hr, toTreesW]
+    simp
+  | [.word w], n, rest, hok, hn => by
+    obtain ⟨m, rfl⟩ : ∃ m, n = m + 2 := ⟨n - 2, by simp [sizeLW, WTree.size] at hn; omega⟩
+    have hw : WordOk T.lexCfg w := by simpa [WordsOkL, WTree.WordsOk] using hok
+    simp only [renderListW, renderW, renderSpW, List.append_nil]
+    rw [inside_step_word_close hT w hw]
+    simp [toTreesW, WTree.toTree]
+  | .word w :: t :: ts, n, rest, hok, hn => by
+    obtain ⟨m, rfl⟩ : ∃ m, n = m + 1 := ⟨n - 1, by omega⟩
+    obtain ⟨hw, hok'⟩ : WordOk T.lexCfg w ∧ WordsOkL T.lexCfg (t :: ts) := by
+      simpa [WordsOkL, WTree.WordsOk] using hok
+    have e : renderListW l r (.word w :: t :: ts) ++ r :: rest = w ++ ' ' :: (renderListW l r (t :: ts) ++ r :: rest) := by
+      simp [renderListW, renderW, renderSpW]
+    rw [e, inside_step_word_sp hT w hw,
+      inside_listW hT (t :: ts) m rest hok' (by simp [sizeLW, WTree.size] at hn ⊢; omega)]
+    simp [PR.bind, toTreesW, WTree.toTree]
+  | .leaf x :: ts, n, rest, hok, hn => by
+    obtain ⟨m, rfl⟩ : ∃ m, n = m + 1 := ⟨n - 1, by omega⟩
+    have hok' : WordsOkL T.lexCfg ts := by simpa [WordsOkL, WTree.WordsOk] using hok
+    simp only [renderListW, renderW, List.append_assoc]
+    rw [inside_step_dq hT.toDqTok, inside_sp_eq_list hT.lex,
+      inside_listW hT ts m rest hok' (by simp [sizeLW, WTree.size] at hn; omega)]
+    simp [PR.bind, toTreesW, WTree.toTree]
+  | .node ts' :: ts, n, rest, hok, hn => by
+    obtain ⟨m, rfl⟩ : ∃ m, n = m + 1 := ⟨n - 1, by omega⟩
+    obtain ⟨hok1, hok2⟩ : WordsOkL T.lexCfg ts' ∧ WordsOkL T.lexCfg ts := by
+      simpa [WordsOkL, WTree.WordsOk] using hok
+    simp only [renderListW, renderW, List.append_assoc, List.cons_append, List.nil_append]
+    rw [insideBrackets, getToken_punct l hT.l_ws hT.l_sep hT.l_q]
+    have h1 : [l] ≠ T.right := by rw [hT.hr]; simp [hT.ne]
+    simp only [hT.hl, h1, if_true, if_false, List.cons_ne_nil]
+    rw [inside_listW hT ts' m _ hok1 (by simp [sizeLW, WTree.size] at hn; omega)]
+    simp only [PR.bind]
+    rw [inside_sp_eq_list hT.lex, inside_listW hT ts m rest hok2 (by simp [sizeLW, WTree.size] at hn; omega)]
+    simp [toTreesW, WTree.toTree]
+
+theorem topLoop_sp_eq_list {T : TokCfg} (hl : DqCfg T.lexCfg) (l r : Char) (ts : List WTree) (n : Nat)
+    (args : List Tree) (ends : List (List Tree)) :
+    topLoop T n (bnd (renderSpW l r ts)) args ends = topLoop T n (bnd (renderListW l r ts)) args ends := by
+  rw [renderSpW_eq]
+  cases ts with
+  | nil => simp [renderListW]
+  | cons t ts => exact topLoop_space hl n _ args ends
+
+theorem topLoop_step_word_sp {T : TokCfg} {l r : Char} (hT : WdTok T l r) (w : Str) (hw : WordOk T.lexCfg w)
+    (n : Nat) (rest : Str) (args : List Tree) (ends : List (List Tree)) :
+    topLoop T (n + 1) (bnd (w ++ ' ' :: rest)) args ends = topLoop T n (bnd rest) (args ++ [.leaf (toCps w)]) ends := by
+  rw [topLoop, getToken_word_space hT.a_q hT.lex.sp_ws w rest hw]
+  have h0 : w ≠ [] := hw.1
+  have h1 : ¬ (w = ['|'] ∧ T.pipe = true) := fun h => word_ne_sep hw '|' (hT.pipe_sep h.2) h.1
+  have h2 : w ≠ T.left := by rw [hT.hl]; exact word_ne_sep hw l hT.l_sep
+  have h3 : w ≠ T.right := by rw [hT.hr]; exact word_ne_sep hw r hT.r_sep
+  simp only [h0, h1, h2, h3, if_false, handleToken_word T.quotes hT.q_sep w hw, PR.bind]
+
+theorem topLoop_step_word_eof {T : TokCfg} {l r : Char} (hT : WdTok T l r) (w : Str) (hw : WordOk T.lexCfg w)
+    (n : Nat) (args : List Tree) :
+    topLoop T (n + 2) (bnd w) args [] = .ok (args ++ [.leaf (toCps w)], []) := by
+  rw [topLoop, getToken_word_eof hT.a_q w hw]
+  have h0 : w ≠ [] := hw.1
+  have h1 : ¬ (w = ['|'] ∧ T.pipe = true) := fun h => word_ne_sep hw '|' (hT.pipe_sep h.2) h.1
+  have h2 : w ≠ T.left := by rw [hT.hl]; exact word_ne_sep hw l hT.l_sep
+  have h3 : w ≠ T.right := by rw [hT.hr]; exact word_ne_sep hw r hT.r_sep
+  simp only [h0, h1, h2, h3, if_false, handleToken_word T.quotes hT.q_sep w hw, PR.bind]
+  rw [topLoop, getToken_none]
+  simp
+
+theorem topLoop_step_nodeW {T : TokCfg} {l r : Char} (hT : WdTok T l r) (ts' : List WTree) (n : Nat)
+    (hok : WordsOkL T.lexCfg ts') (hn : sizeLW ts' + 1 ≤ n) (rest : Str) (args : List Tree) (ends : List (List Tree)) :
+    topLoop T (n + 1) (bnd (renderW l r (.node ts') ++ rest)) args ends =
+      topLoop T n (bnd rest) (args ++ [.node (toTreesW ts')]) ends := by
+  simp only [renderW, List.append_assoc, List.cons_append, List.nil_append]
+  rw [topLoop, getToken_punct l hT.l_ws hT.l_sep hT.l_q]
+  have h1 : ¬ ([l] = ['|'] ∧ T.pipe = true) := fun h => hT.l_pipe (by simpa using h.1)
+  simp only [h1, hT.hl, if_true, if_false, List.cons_ne_nil]
+  rw [inside_listW hT ts' n _ hok hn]
+  simp only [PR.bind]
+
+theorem topLoop_listW {T : TokCfg} {l r : Char} (hT : WdTok T l r) : (ts : List WTree) → ∀ (n : Nat) (args : List Tree),
+    WordsOkL T.lexCfg ts → sizeLW ts + 1 ≤ n →
+    topLoop T n (bnd (renderListW l r ts)) args [] = .ok (args ++ toTreesW ts, [])
+  | [], n, args, _, hn => by
+    obtain ⟨m, rfl⟩ : ∃ m, n = m + 1 := ⟨n - 1, by omega⟩
+    simp [renderListW, topLoop, getToken_eof, toTreesW]
+  | [.word w], n, args, hok, hn => by
+    obtain ⟨m, rfl⟩ : ∃ m, n = m + 2 := ⟨n - 2, by simp [sizeLW, WTree.size] at hn; omega⟩
+    have hw : WordOk T.lexCfg w := by simpa [WordsOkL, WTree.WordsOk] using hok
+    simp only [renderListW, renderW, renderSpW, List.append_nil]
+    rw [topLoop_step_word_eof hT w hw]
+    simp [toTreesW, WTree.toTree]
+  | .word w :: t :: ts, n, args, hok, hn => by
+    obtain ⟨m, rfl⟩ : ∃ m, n = m + 1 := ⟨n - 1, by omega⟩
+    obtain ⟨hw, hok'⟩ : WordOk T.lexCfg w ∧ WordsOkL T.lexCfg (t :: ts) := by
+      simpa [WordsOkL, WTree.WordsOk] using hok
+    have e : renderListW l r (.word w :: t :: ts) = w ++ ' ' :: renderListW l r (t :: ts) := by
+      simp [renderListW, renderW, renderSpW]
+    rw [e, topLoop_step_word_sp hT w hw,
+      topLoop_listW hT (t :: ts) m _ hok' (by simp [sizeLW, WTree.size] at hn ⊢; omega)]
+    simp [toTreesW, WTree.toTree]
+  | .leaf x :: ts, n, args, hok, hn => by
+    obtain ⟨m, rfl⟩ : ∃ m, n = m + 1 := ⟨n - 1, by omega⟩
+    have hok' : WordsOkL T.lexCfg ts := by simpa [WordsOkL, WTree.WordsOk] using hok
+    simp only [renderListW]
+    rw [show renderW l r (.leaf x) = dq quoteBody x from rfl,
+      topLoop_step_dq hT.toDqTok quoteBody toCps x (goodWriter_quoteBody x), topLoop_sp_eq_list hT.lex,
+      topLoop_listW hT ts m _ hok' (by simp [sizeLW, WTree.size] at hn; omega)]
+    simp [toTreesW, WTree.toTree]
+  | .node ts' :: ts, n, args, hok, hn => by
+    obtain ⟨m, rfl⟩ : ∃ m, n = m + 1 := ⟨n - 1, by omega⟩
+    obtain ⟨hok1, hok2⟩ : WordsOkL T.lexCfg ts' ∧ WordsOkL T.lexCfg ts := by
+      simpa [WordsOkL, WTree.WordsOk] using hok
+    simp only [renderListW]
+    rw [topLoop_step_nodeW hT ts' m hok1 (by simp [sizeLW, WTree.size] at hn; omega), topLoop_sp_eq_list hT.lex,
+      topLoop_listW hT ts m _ hok2 (by simp [sizeLW, WTree.size] at hn; omega)]
+    simp [toTreesW, WTree.toTree]
+
+mutual
+theorem sizeW_le_render (cfg : LexCfg) (l r : Char) : (t : WTree) → t.WordsOk cfg → t.size ≤ (renderW l r t).length
+  | .word w, h => by
+    have : w ≠ [] := (by simpa [WTree.WordsOk] using h : WordOk cfg w).1
+    cases w with
+    | nil => exact absurd rfl this
+    | cons c w => simp [WTree.size, renderW]
+  | .leaf x, _ => by simp [WTree.size, renderW, quote]
+  | .node ts, h => by
+    have := sizeLW_le_renderList cfg l r ts (by simpa [WTree.WordsOk] using h)
+    simp [WTree.size, renderW]; omega
+theorem sizeLW_le_renderList (cfg : LexCfg) (l r : Char) : (ts : List WTree) → WordsOkL cfg ts →
+    sizeLW ts ≤ (renderListW l r ts).length
+  | [], _ => by simp [sizeLW]
+  | t :: ts, h => by
+    obtain ⟨h1, h2⟩ : t.WordsOk cfg ∧ WordsOkL cfg ts := by simpa [WordsOkL] using h
+    have := sizeW_le_render cfg l r t h1; have := sizeLW_le_renderSp cfg l r ts h2
+    simp [sizeLW, renderListW]; omega
+theorem sizeLW_le_renderSp (cfg : LexCfg) (l r : Char) : (ts : List WTree) → WordsOkL cfg ts →
+    sizeLW ts ≤ (renderSpW l r ts).length
+  | [], _ => by simp [sizeLW]
+  | t :: ts, h => by
+    obtain ⟨h1, h2⟩ : t.WordsOk cfg ∧ WordsOkL cfg ts := by simpa [WordsOkL] using h
+    have := sizeW_le_render cfg l r t h1; have := sizeLW_le_renderSp cfg l r ts h2
+    simp [sizeLW, renderSpW]; omega
+end
+
+theorem tokenizeT_renderW {T : TokCfg} {l r : Char} (hT : WdTok T l r) (ts : List WTree)
+    (hok : WordsOkL T.lexCfg ts) : tokenizeT T (renderListW l r ts) = .ok (toTreesW ts) := by
+  have hlen := sizeLW_le_renderList T.lexCfg l r ts hok
+  rw [tokenizeT, show initLexer (renderListW l r ts) = bnd (renderListW l r ts) from rfl,
+    topLoop_listW hT ts _ [] hok (by simp only [fuelFor]; omega)]
+  simp [PR.bind, assemble]
+
+/-- the lexer configuration `callbacks.tokenize` builds from the four registry values -/
+def Conf.lexCfg (c : Conf) : LexCfg :=
+  ⟨Gen.shlexWhitespace,
+   (if effPipe c then Gen.tokenizerSeparators ++ effBrackets c ++ ['|'] else Gen.tokenizerSeparators ++ effBrackets c)
+     ++ c.quotes,
+   c.quotes⟩
+
+theorem wdTok_of_mk {c : Conf} {T : TokCfg} {l r : Char}
+    (ht : TablesOk Gen.shlexWhitespace Gen.validBrackets Gen.validQuoteChars) (hv : c.Valid)
+    (hb : effBrackets c = [l, r]) (hT : mkTokenizer (effBrackets c) (effPipe c) c.quotes = .ok T)
+    (hq : '"' ∈ c.quotes) : WdTok T l r ∧ T.lexCfg = c.lexCfg := by
+  have hbo : BracketOk Gen.shlexWhitespace Gen.validQuoteChars [l, r] := hb ▸ effBrackets_ok hv ht
+  have hbr := brTok_of_mk ht hbo hv.2 (hb ▸ hT) hq
+  rw [hb] at hT
+  simp only [mkTokenizer] at hT
+  cases hT
+  refine ⟨{ hbr with
+    a_q := (hv.quotesOk ht).2
+    q_sep := fun ch hch => by simp [TokCfg.lexCfg, hch]
+    pipe_sep := fun hp => by simp only at hp; simp [TokCfg.lexCfg, hp] }, ?_⟩
+  simp [TokCfg.lexCfg, Conf.lexCfg, hb]
+
+/-- a friendly sufficient condition for `WordOk`: not empty and made of characters that are neither
+blank / NUL, nor a bracket, nor a quote character, nor (with pipe syntax) `|` -/
+def PlainWord (c : Conf) (w : Str) : Prop :=
+  w ≠ [] ∧ ∀ ch ∈ w, ch ∉ Gen.tokenizerSeparators ∧ ch ∉ effBrackets c ∧ ch ∉ c.quotes ∧ (effPipe c = true → ch ≠ '|')
+
+instance (c : Conf) (w : Str) : Decidable (PlainWord c w) := by unfold PlainWord; infer_instance
+
+theorem wordOk_of_plain (hws : ∀ ch ∈ Gen.shlexWhitespace, ch ∈ Gen.tokenizerSeparators) (c : Conf) (w : Str)
+    (h : PlainWord c w) : WordOk c.lexCfg w := by
+  refine ⟨h.1, fun ch hch => ?_⟩
+  obtain ⟨h1, h2, h3, h4⟩ := h.2 ch hch
+  refine ⟨?_, fun hw => h1 (hws ch hw)⟩
+  simp only [Conf.lexCfg]
+  cases hp : effPipe c with
+  | false => simp [h1, h2, h3]
+  | true => simp [h1, h2, h3, h4 hp]
 end C13
